@@ -109,6 +109,37 @@ for n, tier, b, cost in [
       "(native replay: a real earlier call on 4 arbitrary bytes); deterministic contracts; " + b,
       stubs=ENV_STUBS + HEAD_CONTRACTS, funcs=HEAD_FUNCS, cost=cost)
 
+# ---------------------------------------------------------------------------------------------------
+# GUARD / STEP — per-opcode instances stamped by gen_instances.py
+import gen_instances as _gi
+HEAP_STUBS = ENV_STUBS + [
+    "hm_len_any / hm_is_empty_any: HashMap::len / is_empty return a symbolic memo size m (key set {0..m-1}: contiguity invariant, family MEMO-PUT); "
+    "native replay builds a real table with m entries"]
+STEP_STUBS = HEAP_STUBS + [
+    "hm_insert_forget / hs_insert_forget: HashMap::insert / HashSet::insert discard their arguments (contents of simulated dict/set objects are "
+    "never read by a guard or effect: assumption A1)",
+    "so_clone_flat: <StackObject as Clone>::clone is variant-preserving with canonical payload (A1)",
+    "f64_from_str_any: <f64 as FromStr>::from_str returns an arbitrary value (FLOAT arm)",
+    "c_put / c_get: Generator::{put,get} operate on a shadow memo (recorded index/kind); native replay uses the real table"]
+_ALPH = "all 18 StackObject variants per slot, one optional DUP-style alias pair, all flag values, memo size m symbolic"
+for i in _gi.guard_instances():
+    if i["macro"] == "guard_h":
+        props = ["C01", "C03", "C09", "C10", "C02"] if i["opname"] in ("PUT", "BINPUT", "LONG_BINPUT", "MEMOIZE", "GET", "BINGET", "LONG_BINGET") else ["C01", "C03", "C09", "C10"]
+        H(i["name"], "guard.rs", "GUARD", props, i["tier"],
+          "%s at stack depth %d: %s (m <= 300)" % (i["opname"], i["n"], _ALPH), stubs=HEAP_STUBS,
+          funcs=["Generator::can_emit", "Generator::{peek,peek_at,has_mark,is_*_at,is_*_at_mark,count_items_to_mark,is_callable_above_mark}"],
+          cost=1 + i["n"])
+    else:
+        H(i["name"], "guard.rs", "GUARD(cover)", ["C12"], i["tier"],
+          "%s: some state of depth %d enables the opcode (cover query must be satisfiable)" % (i["opname"], i["n"]),
+          stubs=HEAP_STUBS, funcs=["Generator::can_emit"], cost=1 + i["n"])
+for i in _gi.step_instances():
+    memo = i["opname"] in ("PUT", "BINPUT", "LONG_BINPUT", "MEMOIZE", "GET", "BINGET", "LONG_BINGET")
+    H(i["name"], "step.rs", "STEP", ["C17", "C01", "C03", "C09"] + (["C02"] if memo else []), i["tier"],
+      "%s from every state of depth %d in which can_emit holds: %s (m <= 4); well-formed argument bytes (%s)"
+      % (i["opname"], i["n"], _ALPH, i["arg"]), stubs=STEP_STUBS,
+      funcs=["Generator::process_stack_ops(%s)" % i["opname"], "Generator::{push,pop,peek}", "Stack::{push,pop}"], cost=2 + 2 * i["n"])
+
 
 def units_for(prop, tier):
     out = []
